@@ -254,6 +254,136 @@ def gen_ctx(rng: random.Random, m: onnx.ModelProto) -> dict:
     }
 
 
+def gen_seq(rng: random.Random, ctx: dict, other: Optional[onnx.ModelProto]) -> dict:
+    """Further Inline nodes emitted after the first one in the same scope: node names (mostly the build's own
+    pairwise incomparable `Inline_i` names; sometimes one INSIDE the first node's family, or the first name again
+    with another counter state), chained on the first node's results when the signature allows, a shared-argument
+    second call, a node of ANOTHER model."""
+    k1 = ctx["nodeName"]
+    pool = [k for k in ["Inline_1", "Inline_2", "Inline_10", "Inline_20", "If_0_then_branch__Inline_0",
+                        "If_0_else_branch__Inline_0", "Loop_2_body__Inline_3", "Inline_0"] if k != k1]
+    rng.shuffle(pool)
+    names = pool[:2]
+    shape = "incomparable"
+    r = rng.random()
+    if r < 0.12:
+        names[0] = k1 + "__Inline_0"     # a name inside the first node's family (what a body of an inlined ... would be)
+        shape = "nested-in-first-family"
+    elif r < 0.2:
+        names[1] = names[0] + "__" + rng.choice(["x", "Inline_0", "y_0"])
+        shape = "nested-in-second-family"
+    return {"names": names, "shape": shape, "chain": rng.random() < 0.6, "other": other if rng.random() < 0.6 else None}
+
+
+def seq_stage(out: dict, sq: dict, m, f, node1, vars1, pos, kw, ctx: dict, lits, Scope) -> None:  # noqa: N803
+    """Registers every node / value name first (as `Scope.update` does), then calls `to_onnx` of the nodes in order in
+    that ONE Scope; the model side is `Inline.toOnnxSeq` on the same initial name spaces."""
+    from spox import argument, inline
+
+    sites = [{"nodeName": ctx["nodeName"], "argNames": list(ctx["argNames"]), "resNames": list(ctx["resNames"])}]
+    nodes_objs = [node1]
+    names_of: dict = {}
+    for v, n in zip(node1.inputs.inputs, ctx["argNames"]):
+        names_of[id(v)] = (v, n)
+    for v, n in zip(node1.outputs.outputs, ctx["resNames"]):
+        names_of[id(v)] = (v, n)
+    forms = []
+    # site 2: the same callable again - chained on the results of the first node when possible, else same arguments
+    k2, k3 = sq["names"]
+    res2 = None
+    if sq["chain"] and len(vars1) == len(m.graph.input):
+        try:
+            res2 = f(*vars1)
+            forms.append("chained")
+        except Exception:  # noqa: BLE001 - result types do not fit the inputs
+            res2 = None
+    if res2 is None:
+        res2 = f(*pos, **kw)
+        forms.append("shared-arguments")
+    node2 = list(res2.values())[0]._op
+    todo = [(node2, k2, None)]
+    if sq["other"] is not None:
+        m3 = sq["other"]
+        try:
+            pos3 = [argument(spox_type(L.type_json(i.type))) for i in m3.graph.input]
+            res3 = inline(m3)(*pos3)
+            todo.append((list(res3.values())[0]._op, k3, m3))
+            forms.append("other-model")
+        except Exception:  # noqa: BLE001 - public API refused the other model / call: nothing to compare
+            pass
+    fresh_i = 0
+    for nd, k, mm in todo:
+        args = []
+        for v in nd.inputs.inputs:
+            if id(v) not in names_of:
+                names_of[id(v)] = (v, f"w{fresh_i}")
+                fresh_i += 1
+            args.append(names_of[id(v)][1])
+        ress = []
+        for i, v in enumerate(nd.outputs.outputs):
+            names_of[id(v)] = (v, f"{k}_outputs_{i}")
+            ress.append(f"{k}_outputs_{i}")
+        site = {"nodeName": k, "argNames": args, "resNames": ress}
+        if mm is not None:
+            site["graph"] = L.abstract_graph(mm.graph, lits)
+        sites.append(site)
+        nodes_objs.append(nd)
+    all_names = [n for _, n in names_of.values()]
+    if len(set(all_names)) != len(all_names) or len({s["nodeName"] for s in sites}) != len(sites):
+        out["seq_skipped"] = "names not distinct"
+        return
+    scope = Scope()
+    for nd, st in zip(nodes_objs, sites):
+        scope.node[nd] = st["nodeName"]
+    for v, n in names_of.values():
+        scope.var[v] = n
+    for n in ctx["_extra_var"]:
+        scope.var.reserved.add(n)
+    for n in ctx["_extra_node"]:
+        scope.node.reserved.add(n)
+    for b, c in ctx["var"]["counters"]:
+        scope.var.base_name_counters[b] = c
+    for b, c in ctx["node"]["counters"]:
+        scope.node.base_name_counters[b] = c
+    out["seq_req"] = {
+        "var": {"used": list(dict.fromkeys(all_names + ctx["_extra_var"])), "counters": ctx["var"]["counters"]},
+        "node": {"used": list(dict.fromkeys([s["nodeName"] for s in sites] + ctx["_extra_node"])), "counters": ctx["node"]["counters"]},
+        "sites": sites,
+    }
+    out["seq_forms"] = forms + [sq["shape"]]
+    emitted = []
+    try:
+        for nd in nodes_objs:
+            emitted.extend(nd.to_onnx(scope))
+    except Exception as e:  # noqa: BLE001 - the outcome of the sequence
+        out["seq"] = type(e).__name__
+        return
+
+    def space(sp):
+        names = set(sp.reserved) | {k for k in sp.of_name}
+        return {"used": sorted(names), "counters": sorted([b, c] for b, c in sp.base_name_counters.items())}
+
+    out["seq"] = {"nodes": [L.abstract_node(n, lits) for n in emitted], "var": space(scope.var), "node": space(scope.node)}
+
+
+def compare_seq(real: dict, model: dict) -> Optional[str]:
+    rs, ms = real.get("seq"), model.get("seq")
+    if rs is None:
+        return None
+    if ms is None:
+        return "seq: model gave no answer"
+    if isinstance(rs, str) or isinstance(ms, str):
+        return None if rs == ms else f"seq: real {rs if isinstance(rs, str) else 'ok'} model {ms if isinstance(ms, str) else 'ok'}"
+    if rs["nodes"] != ms["nodes"]:
+        return f"seq nodes: real {json.dumps(rs['nodes'])[:500]} model {json.dumps(ms['nodes'])[:500]}"
+    for sp in ("var", "node"):
+        if sorted(set(ms[sp]["used"])) != rs[sp]["used"]:
+            return f"seq {sp} names after: real {rs[sp]['used']} model {sorted(set(ms[sp]['used']))}"
+        if sorted(ms[sp]["counters"]) != rs[sp]["counters"]:
+            return f"seq {sp} counters after: real {rs[sp]['counters']} model {sorted(ms[sp]['counters'])}"
+    return None
+
+
 def real_stages(m: onnx.ModelProto, call: dict, ctx: dict, lits: L.Lits) -> dict:
     """Run inline(m), the call and `_Inline.to_onnx` on the real code; canonicalise each stage."""
     from spox import argument, inline
@@ -359,6 +489,13 @@ def real_stages(m: onnx.ModelProto, call: dict, ctx: dict, lits: L.Lits) -> dict
     except Exception as e:  # noqa: BLE001
         out["unobservable"] = f"reading the result of _Inline.to_onnx: {type(e).__name__}: {e}"
         return out
+    # several Inline nodes emitted one after the other in ONE real Scope (model: `toOnnxSeq`, theorem `inline_compose`)
+    sq = ctx.get("_seq")
+    if sq is not None:
+        try:
+            seq_stage(out, sq, m, f, node, vars_, pos, kw, ctx, lits, Scope)
+        except Exception as e:  # noqa: BLE001
+            out["unobservable"] = f"sequence of to_onnx calls in one Scope: {type(e).__name__}: {e}"
     # adapt_inline: conversion decision, re-rename in a fresh Scope, node.model restored
     ad = ctx.get("_adapt")
     if ad is not None:
@@ -1672,6 +1809,9 @@ def run(ck: core.Check):
     reqs, reals, descr = [], [], []
     reqs2: list = []
     n_forms = ck.pick(4, 6)
+    prev_model = None
+    seq_hist: dict[str, int] = {}
+    seq_mism = 0
     with warnings.catch_warnings():
         warnings.simplefilter("ignore")
         for mi, (_, meta) in enumerate(models):
@@ -1684,6 +1824,8 @@ def run(ck: core.Check):
             for mv in variants:
                 for _ in range(n_forms):
                     call, ctx = gen_call(rng, mv), gen_ctx(rng, mv)
+                    # own PRNG: the sequence facet does not shift the stream of the other generators
+                    ctx["_seq"] = gen_seq(random.Random(f"{ck.seed}-seq-{len(reqs)}"), ctx, prev_model)
                     try:
                         real = real_stages(mv, call, ctx, lits)
                     except Exception as e:  # noqa: BLE001
@@ -1697,6 +1839,8 @@ def run(ck: core.Check):
                             "target": ctx["_adapt"]["target"],
                             "converted": real.get("adapt_converted"),
                         }
+                    if "seq_req" in real:
+                        rq["seq"] = real["seq_req"]
                     reqs.append(rq)
                     if "adapt2" in real and not real.get("adapt_conv_raised") and real.get("adapt_called"):
                         # second request: the model's adaptInline under the other names, first emission = the
@@ -1705,6 +1849,7 @@ def run(ck: core.Check):
                                                       "adapt": {**rq["adapt"], "varNames": real["ctx2"]["var"]["used"]}}))
                     reals.append(real)
                     descr.append((mi, call, ctx))
+            prev_model = m
     try:
         answers = ck.driver().ask_many("C08", reqs)
     except Exception as e:  # noqa: BLE001
@@ -1748,6 +1893,22 @@ def run(ck: core.Check):
             ck.broken("correspondence", "C08 rename_total", d_pf)
         if isinstance(ans, dict) and "prefixFree" in ans:
             pf_hist[str(ans["prefixFree"])] = pf_hist.get(str(ans["prefixFree"]), 0) + 1
+        if "seq" in real:
+            try:
+                dq = compare_seq(real, ans if isinstance(ans, dict) else {})
+            except Exception as e:  # noqa: BLE001
+                dq = f"seq comparison failed: {type(e).__name__}: {e}"
+            oq = real["seq"] if isinstance(real["seq"], str) else "emitted"
+            safe = isinstance(ans, dict) and ans.get("seqSafe")
+            for key in [f"outcome:{oq}", f"sites:{len(real['seq_req']['sites'])}", "safe" if safe else "not-safe"] + [f"form:{x}" for x in real.get("seq_forms", [])]:
+                seq_hist[key] = seq_hist.get(key, 0) + 1
+            if safe and isinstance(real["seq"], str):
+                dq = dq or f"toOnnxSeq_total: pairwise incomparable prefix families in a prefix-free scope, but the real sequence raised {real['seq']}"
+            if dq:
+                seq_mism += 1
+                if seq_mism <= 3:
+                    ck.broken("correspondence", "C08 sequence of Inline nodes in one scope (toOnnxSeq) model-vs-implementation",
+                              f"{dq} | model#{mi} {json.dumps(L.summary(models[mi][0]))[:400]} seq={json.dumps({k: v for k, v in real['seq_req'].items() if k != 'sites'})[:300]} sites={json.dumps([{k: v for k, v in st.items() if k != 'graph'} for st in real['seq_req']['sites']])[:400]}")
         if real.get("copy_is_m"):
             d = d or "inline() works on the caller's model object itself"
         if d:
@@ -1776,6 +1937,8 @@ def run(ck: core.Check):
     ck.cov["adapt_second_call_cases"] = len(reqs2)
     ck.cov["adapt_second_call_mismatches"] = mism2
     ck.cov["correspondence_cases"] = len(reqs)
+    ck.cov["sequence_in_one_scope_cases"] = seq_hist
+    ck.cov["sequence_in_one_scope_mismatches"] = seq_mism
     ck.cov["correspondence_mismatches"] = mism
     ck.cov["correspondence_outcomes"] = outcomes
     ck.cov["correspondence_unobservable"] = unobs
